@@ -15,7 +15,7 @@ ASSUMPTIONS = ["addressed coordinates come from the C02 reference model (Python 
                "target cells hold distinct integers 1..size and written values are distinct and disjoint from them",
                "any exception counts as refusal; a refused assignment must leave the target unchanged"]
 REQUIRED_FEATURES = ["kind_cell", "kind_flat", "kind_ragged", "vk_colvec", "vk_ragged", "vk_bad", "vk_view",
-                     "selection_has_empty_row", "neg_step_col", "mask_assign", "untouched_cells_exist"]
+                     "selection_has_empty_row", "neg_step_col", "mask_assign", "untouched_cells_exist", "dtype_pass"]
 BOUNDS = {"quick": "LV(3,2) (40 arrays) x reduced bound grid (bounds None,-(k+1),-1,0,1,2,k,k+1; steps None,2,-1,-2) x "
                    "value kinds scalar/np scalar/flat/(k,1) ndarray/(k,1) list/matching RaggedArray/pending-view RaggedArray/"
                    "3 mismatching RaggedArrays; every boolean ragged mask pattern x scalar/flat",
@@ -123,6 +123,23 @@ def cases(shard, tier):
     for bits in itertools.product([0, 1], repeat=size):
         for vk in ("scalar", "flat"):
             yield [lens, ["mask", list(bits)], vk]
+    # dtype pass: the same write into float64 / uint8 / bool targets (reduced selector set)
+    for dt in ("float64", "uint8", "bool"):
+        for sel in ("E", ["s", 1, None, None], ["s", None, None, -1], ["l", [n - 1, 0]] if n else ["l", []], ["i", 0],
+                    ["t", ["s", None, None, None], ["s", 1, None, None]], ["t", ["s", None, None, None], ["s", None, None, -2]],
+                    ["t", ["i", -1], ["i", 0]], ["t", "E", ["i", 0]]):
+            try:
+                kind, coords, alias = M.index_coords(lens, dsl.dec(sel))
+            except M.Refuse:
+                continue
+            for vk in ("scalar", "flat", "colvec", "ragged"):
+                if kind == "cell" and vk != "scalar":
+                    continue
+                if kind == "flat" and vk not in ("scalar", "flat"):
+                    continue
+                if vk == "flat" and not (coords if kind == "flat" else any(coords)):
+                    continue
+                yield [lens, sel, vk, dt]
 
 
 def _mk_ragged(rows):
@@ -133,9 +150,14 @@ def _mk_ragged(rows):
 
 def check(case, acc):
     from npstructures import RaggedArray
-    lens, sel, vk = case
+    lens, sel, vk = case[:3]
+    tdt = case[3] if len(case) > 3 else "int64"
     size = sum(lens)
     flat = np.arange(1, size + 1, dtype=np.int64)
+    if tdt != "int64":
+        acc.feature("dtype_pass")
+        flat = dsl.pattern(tdt, size, 1)
+        return _check_typed(acc, lens, sel, vk, tdt, flat)
     rows = [r.tolist() for r in dsl.split_rows(flat, lens)]
     ra = RaggedArray(flat.copy(), list(lens))
     if isinstance(sel, list) and sel and sel[0] == "mask":
@@ -237,6 +259,55 @@ def check(case, acc):
         same = np.array_equal(now, val_before) if isinstance(val, np.ndarray) else now == val_before
         if not same:
             acc.fail("value-operand-modified", str(val_before), str(now))
+
+
+def _check_typed(acc, lens, sel, vk, tdt, flat):
+    """dtype pass: the assigned values are converted to the target's dtype exactly as numpy converts them when
+    assigning into one row; the target keeps its dtype"""
+    from npstructures import RaggedArray
+    dt = flat.dtype
+    rows = [r.copy() for r in dsl.split_rows(flat, lens)]
+    ra = RaggedArray(flat.copy(), list(lens))
+    idx = dsl.dec(sel)
+    kind, coords, alias = M.index_coords(lens, idx)
+    if kind == "cell":
+        cells, shape = [coords], None
+    elif kind == "flat":
+        cells, shape = list(coords), None
+    else:
+        cells, shape = [c for r in coords for c in r], [len(r) for r in coords]
+    src = {"float64": [2.5, -0.25, 8.0, 0.0], "uint8": [7, 255, 0, 9], "bool": [True, False, True, True]}[tdt]
+    if vk == "scalar":
+        val = src[0]
+        vals = [src[0]] * len(cells)
+    elif vk == "flat":
+        vals = [src[i % 4] for i in range(len(cells))]
+        val = np.array(vals, dtype=dt)
+    elif vk == "colvec":
+        per = [src[i % 4] for i in range(len(shape))]
+        val = np.array(per, dtype=dt)[:, None]
+        vals = [per[i] for i, l in enumerate(shape) for _ in range(l)]
+    else:
+        vals = [src[i % 4] for i in range(len(cells))]
+        val = RaggedArray(np.array(vals, dtype=dt), list(shape))
+    exp = [r.copy() for r in rows]
+    for (r, c), v in zip(cells, vals):
+        exp[r][c] = v
+    if cells:
+        acc.nontrivial()
+
+    def assign():
+        ra[idx] = val
+    res = observe(assign)
+    post = observe(lambda: ra, dt=True)
+    acc.trans()
+    acc.state(post)
+    acc.outcome((res, post))
+    exp_post = ("R", str(dt), tuple(tuple(x.item() for x in r) for r in exp))
+    if is_refused(res):
+        acc.fail("valid-assignment-refused", exp_post, res)
+    elif post != exp_post:
+        acc.fail("wrong-cells-written", exp_post, post)
 
 
 def _check_mask(acc, lens, rows, ra, bits, vk):
